@@ -77,6 +77,7 @@ def oracle_ctl(ctx, ops, impl):
                            {"op": op, "impl": im, "clients": clients})
             pending_respell = None
         if t[:2] == ["C", "udppath"]:
+            # emitted only for a datagram that was received and is not the client's own
             ctx.report(f"UDP packet-send path: a coalesced client got a reply that is not its own ({' '.join(t[2:])}, got {im})",
                        {"op": op, "impl": im})
             continue
@@ -114,6 +115,9 @@ def oracle_fwd(ctx, ops, impl, label):
     retired => closed exactly once."""
     last = None
     for op, im in zip(ops, impl):
+        if op.startswith("X "):
+            last = None  # abandoned history: its last state is not a quiescent one
+            continue
         f = dict(kv.split("=") for kv in im.split() if "=" in kv)
         if "cl" not in f:
             continue
@@ -147,8 +151,10 @@ def oracle_pipe(ctx, ops, impl):
             if mid != i or conn != c:
                 ctx.report(f"RoundTrip of waiter {t[2]} (connection {c}, id {i}) returned a message with id {mid} sent on connection {conn}",
                            {"op": op, "impl": im})
-        if "stuck" in im or "unexpected" in im:
-            ctx.report(f"pipelined connection harness lost track of the real code: {op} -> {im}", {"op": op, "impl": im})
+        if "unexpected:" in im or im.startswith("crash:"):
+            # a yield point other than the one this step can reach, or a panic: definite observations
+            # (a wait that merely ran out of time is an `X inconclusive` line, never a violation)
+            ctx.report(f"pipelined connection: the real code took a step the model does not have: {op} -> {im}", {"op": op, "impl": im})
 
 
 def run(ctx):
@@ -187,6 +193,7 @@ def run(ctx):
         ctx.proof_failures.append("yield points missing from /repo, schedule replay impossible: " + ",".join(missing))
 
     n_replies = 0
+    inconclusive = {}
     for name, test in streams + (SCHED_STREAMS if sched_bin else []):
         b = sched_bin if (name, test) in SCHED_STREAMS else binp
         rc, out = ctx.run_harness(b, test)
@@ -215,9 +222,13 @@ def run(ctx):
             ctx.report(f"implementation differs from proved model ({name} line {ln}): op `{op}` impl `{im}` model `{mo}`",
                        {"stream": name, "line": ln, "op": op, "impl": im, "model": mo,
                         "history": lo[start:ln], "replay": "VERIF_SEED=%d ./check C09 %s" % (ctx.seed, ctx.tier)})
-        total += len(lo)
+        n_inc = sum(1 for op in lo if op.startswith("X inconclusive"))
+        if n_inc:
+            inconclusive[name] = inconclusive.get(name, 0) + n_inc
+            ctx.say(f"NOTE {name}: {n_inc} history(ies) abandoned as inconclusive (goroutines of the real code not scheduled within the budget); not counted as evidence either way")
+        total += len(lo) - n_inc
         for op in lo:
-            if " reset" not in op[:10]:
+            if " reset" not in op[:10] and not op.startswith("X "):
                 distinct.add(name + ":" + op)
         sp = os.path.join(ctx.out, name + ".stats.json")
         if os.path.exists(sp):
@@ -225,6 +236,11 @@ def run(ctx):
             stats_all[name] = stt["counters"]
             ctx.samples += (stt.get("samples") or [])[:2]
         ctx.samples += lo[1:3]
+    for name, cnt in stats_all.items():
+        for k, v in cnt.items():
+            if k.endswith("udppath.inconclusive") and v:
+                inconclusive["c09ctl.udppath"] = v
+    ctx.cov["inconclusive_histories"] = inconclusive or {}
     ctx.cov["input_distribution"] = stats_all
     ctx.cov["client_replies_checked"] = n_replies
     ctx.assumptions = [
